@@ -163,7 +163,12 @@ def _universal():
     r.add_metabolites({Metabolite("B_c", compartment="c"): -1, Metabolite("C_c", compartment="c"): 1})
     r2 = Reaction("U2", lower_bound=0, upper_bound=1000)
     r2.add_metabolites({Metabolite("A_c", compartment="c"): -1, Metabolite("C_c", compartment="c"): 2})
-    u.add_reactions([r, r2])
+    # a reaction over a metabolite the model does not have (the universal model usually knows more metabolites)
+    r3 = Reaction("U3", lower_bound=0, upper_bound=1000)
+    r3.add_metabolites({Metabolite("A_c", compartment="c"): -1, Metabolite("ZZ_only_universal_c", compartment="c"): 1})
+    r4 = Reaction("U4", lower_bound=0, upper_bound=1000)
+    r4.add_metabolites({Metabolite("ZZ_only_universal_c", compartment="c"): -1, Metabolite("C_c", compartment="c"): 1})
+    u.add_reactions([r, r2, r3, r4])
     return u
 
 
